@@ -151,11 +151,11 @@ type alt struct {
 }
 
 type group struct {
-	Kind     string // Vector | Matrix | Scalar
-	Name     string
-	Methods  []string
-	Classes  []string
-	Variants []string
+	Kind      string // Vector | Matrix | Scalar
+	Name      string
+	Methods   []string
+	Classes   []string
+	Variants  []string
 	MagicOnly bool
 	// Build returns the calls for a class ("valid" = admissible baseline).
 	Build func(e *env, variant, class string, concrete bool) []alt
@@ -176,7 +176,10 @@ func vecGroups() []group {
 	gs = append(gs, group{Kind: "Vector", Name: "At", Methods: idxMethods, Classes: []string{"index<0", "index>=dim"}, Variants: vecVariants,
 		Build: func(e *env, variant, class string, concrete bool) []alt {
 			n := e.r.Range(2, 5)
-			mk := func(i int) alt { v, p := e.recvVec(variant, n); return alt{v, p, []any{i}, fmt.Sprintf("dim=%d index=%d", n, i)} }
+			mk := func(i int) alt {
+				v, p := e.recvVec(variant, n)
+				return alt{v, p, []any{i}, fmt.Sprintf("dim=%d index=%d", n, i)}
+			}
 			switch class {
 			case "valid":
 				return []alt{mk(e.r.Intn(n))}
@@ -208,7 +211,10 @@ func vecGroups() []group {
 	gs = append(gs, group{Kind: "Vector", Name: "Swap", Methods: []string{"Swap"}, Classes: []string{"index<0", "index>=dim"}, Variants: vecVariants,
 		Build: func(e *env, variant, class string, concrete bool) []alt {
 			n := e.r.Range(2, 5)
-			mk := func(i, j int) alt { v, p := e.recvVec(variant, n); return alt{v, p, []any{i, j}, fmt.Sprintf("dim=%d swap(%d,%d)", n, i, j)} }
+			mk := func(i, j int) alt {
+				v, p := e.recvVec(variant, n)
+				return alt{v, p, []any{i, j}, fmt.Sprintf("dim=%d swap(%d,%d)", n, i, j)}
+			}
 			switch class {
 			case "valid":
 				return []alt{mk(0, n-1)}
@@ -316,7 +322,10 @@ func vecGroups() []group {
 	gs = append(gs, group{Kind: "Vector", Name: "Permute", Methods: []string{"Permute"}, Classes: []string{"length-mismatch", "index-out-of-range"}, Variants: vecVariants,
 		Build: func(e *env, variant, class string, concrete bool) []alt {
 			n := e.r.Range(3, 5)
-			mk := func(pi []int) alt { v, p := e.recvVec(variant, n); return alt{v, p, []any{pi}, fmt.Sprintf("dim=%d permutation=%v", n, pi)} }
+			mk := func(pi []int) alt {
+				v, p := e.recvVec(variant, n)
+				return alt{v, p, []any{pi}, fmt.Sprintf("dim=%d permutation=%v", n, pi)}
+			}
 			pi := e.r.Perm(n)
 			switch class {
 			case "valid":
@@ -345,7 +354,10 @@ func vecGroups() []group {
 		}})
 	gs = append(gs, group{Kind: "Vector", Name: "AsMatrix", Methods: []string{"AsMatrix", "AsConstMatrix", "AsMagicMatrix", "To*Matrix"}, Classes: []string{"rows*cols!=dim", "negative-dimensions"}, Variants: vecVariants,
 		Build: func(e *env, variant, class string, concrete bool) []alt {
-			mk := func(n, r, c int) alt { v, p := e.recvVec(variant, n); return alt{v, p, []any{r, c}, fmt.Sprintf("dim=%d as %dx%d", n, r, c)} }
+			mk := func(n, r, c int) alt {
+				v, p := e.recvVec(variant, n)
+				return alt{v, p, []any{r, c}, fmt.Sprintf("dim=%d as %dx%d", n, r, c)}
+			}
 			switch class {
 			case "valid":
 				return []alt{mk(6, 2, 3)}
@@ -358,7 +370,10 @@ func vecGroups() []group {
 	gs = append(gs, group{Kind: "Vector", Name: "Variables", Methods: []string{"Variables"}, Classes: []string{"derivative-order=3"}, Variants: vecVariants, MagicOnly: true,
 		Build: func(e *env, variant, class string, concrete bool) []alt {
 			n := e.r.Range(2, 4)
-			mk := func(o int) alt { v, p := e.recvVec(variant, n); return alt{v, p, []any{o}, fmt.Sprintf("dim=%d order=%d", n, o)} }
+			mk := func(o int) alt {
+				v, p := e.recvVec(variant, n)
+				return alt{v, p, []any{o}, fmt.Sprintf("dim=%d order=%d", n, o)}
+			}
 			if class == "valid" {
 				return []alt{mk(2)}
 			}
@@ -418,7 +433,10 @@ func matGroups() []group {
 	gs = append(gs, group{Kind: "Matrix", Name: "Diag", Methods: []string{"Diag", "DIAG", "ConstDiag"}, Classes: []string{"non-square"}, Variants: matVariants,
 		Build: func(e *env, variant, class string, concrete bool) []alt {
 			n := e.r.Range(2, 4)
-			mk := func(r, c int) alt { m, p := e.recvMat(variant, r, c); return alt{m, p, nil, fmt.Sprintf("%dx%d", r, c)} }
+			mk := func(r, c int) alt {
+				m, p := e.recvMat(variant, r, c)
+				return alt{m, p, nil, fmt.Sprintf("%dx%d", r, c)}
+			}
 			if class == "valid" {
 				return []alt{mk(n, n)}
 			}
@@ -689,7 +707,10 @@ func matGroups() []group {
 		}})
 	gs = append(gs, group{Kind: "Matrix", Name: "Variables", Methods: []string{"Variables"}, Classes: []string{"derivative-order=3"}, Variants: []string{"plain", "view"}, MagicOnly: true,
 		Build: func(e *env, variant, class string, concrete bool) []alt {
-			mk := func(o int) alt { m, p := e.recvMat(variant, 2, 2); return alt{m, p, []any{o}, fmt.Sprintf("2x2 order=%d", o)} }
+			mk := func(o int) alt {
+				m, p := e.recvMat(variant, 2, 2)
+				return alt{m, p, []any{o}, fmt.Sprintf("2x2 order=%d", o)}
+			}
 			if class == "valid" {
 				return []alt{mk(2)}
 			}
@@ -719,17 +740,19 @@ func scalarGroups() []group {
 	gs = append(gs, group{Kind: "Scalar", Name: "Mtrace", Methods: []string{"Mtrace"}, Classes: []string{"non-square"}, Variants: plain,
 		Build: func(e *env, variant, class string, concrete bool) []alt {
 			n := e.r.Range(2, 4)
-			mk := func(r, c int) alt { return alt{e.scalar(), nil, []any{e.matS(e.other(false), r, c)}, fmt.Sprintf("%dx%d", r, c)} }
+			mk := func(r, c int) alt {
+				return alt{e.scalar(), nil, []any{e.matS(e.other(false), r, c)}, fmt.Sprintf("%dx%d", r, c)}
+			}
 			if class == "valid" {
 				return []alt{mk(n, n)}
 			}
 			return []alt{mk(n, n+1), mk(n+1, n)}
 		}})
-	magic := func() ad.MagicScalar { return nil }
-	_ = magic
 	gs = append(gs, group{Kind: "Scalar", Name: "SetVariable", Methods: []string{"SetVariable"}, Classes: []string{"derivative-order=3", "index>=n"}, Variants: plain, MagicOnly: true,
 		Build: func(e *env, variant, class string, concrete bool) []alt {
-			mk := func(i, n, o int) alt { return alt{e.scalar(), nil, []any{i, n, o}, fmt.Sprintf("SetVariable(%d,%d,%d)", i, n, o)} }
+			mk := func(i, n, o int) alt {
+				return alt{e.scalar(), nil, []any{i, n, o}, fmt.Sprintf("SetVariable(%d,%d,%d)", i, n, o)}
+			}
 			switch class {
 			case "valid":
 				return []alt{mk(1, 3, 2)}
@@ -755,7 +778,9 @@ func scalarGroups() []group {
 	gs = append(gs, group{Kind: "Scalar", Name: "GetDerivative", Methods: []string{"GetDerivative", "SetDerivative"}, Classes: []string{"index>=n", "index<0"}, Variants: plain, MagicOnly: true,
 		Build: func(e *env, variant, class string, concrete bool) []alt {
 			n := e.r.Range(2, 4)
-			mk := func(i int) alt { return alt{armed(e, n, 1), nil, []any{i, 1.5}, fmt.Sprintf("n=%d order=1 index=%d", n, i)} }
+			mk := func(i int) alt {
+				return alt{armed(e, n, 1), nil, []any{i, 1.5}, fmt.Sprintf("n=%d order=1 index=%d", n, i)}
+			}
 			switch class {
 			case "valid":
 				return []alt{mk(n - 1)}
@@ -768,7 +793,9 @@ func scalarGroups() []group {
 	gs = append(gs, group{Kind: "Scalar", Name: "GetHessian", Methods: []string{"GetHessian", "SetHessian"}, Classes: []string{"index>=n", "index<0"}, Variants: plain, MagicOnly: true,
 		Build: func(e *env, variant, class string, concrete bool) []alt {
 			n := e.r.Range(2, 4)
-			mk := func(i, j int) alt { return alt{armed(e, n, 2), nil, []any{i, j, 1.5}, fmt.Sprintf("n=%d order=2 index=(%d,%d)", n, i, j)} }
+			mk := func(i, j int) alt {
+				return alt{armed(e, n, 2), nil, []any{i, j, 1.5}, fmt.Sprintf("n=%d order=2 index=(%d,%d)", n, i, j)}
+			}
 			switch class {
 			case "valid":
 				return []alt{mk(n-1, 0)}
